@@ -358,6 +358,8 @@ func checkC04(p *Prog, r *Report) {
 			})
 		}
 	}
+	checkCleanupRootAlive(p, r)
+
 	// ---- DELETE-SPARES-LISTED ----
 	r.Rule("C04/DELETE-SPARES-LISTED", "the --delete pass never unlinks a path that is in the file list (it would be absent until, and unless, the transfer re-creates it): every RemoveAll/Remove inside the receiver's WalkDir callbacks is dominated by findInFileList(list, path) == false — the same clause as C09/REMOVE-GATES [not-in-list], here as a necessary condition of 'old or new content at every instant'", 1)
 	if find := p.Func(pkgReceiver, "", "findInFileList"); find == nil {
